@@ -155,6 +155,28 @@ func genBusyWindow(r *Rng, cfg *Config, lsW []int) []Op {
 	return []Op{appOp(hold), op, appOp(Step{K: "hold_commit"})}
 }
 
+// genSnapshotWindow: a snapshot stream is open (litestream skips its own
+// checkpoints) while transactions arrive and rounds are acknowledged.
+func genSnapshotWindow(r *Rng, cfg *Config, lsW []int) []Op {
+	ops := []Op{{Kind: "snap_open"}}
+	n := r.Range(2, 12)
+	for i := 0; i < n; i++ {
+		if r.Chance(0.7) {
+			st := genTxn(r, cfg)
+			ops = append(ops, appOp(st))
+		} else {
+			op := genLSOp(r, cfg, lsW)
+			ops = append(ops, op)
+		}
+	}
+	ops = append(ops, Op{Kind: "ls_sync_wait"})
+	if r.Chance(0.5) {
+		ops = append(ops, appOp(genAppStep(r, cfg)), Op{Kind: "ls_sync_wait"})
+	}
+	ops = append(ops, Op{Kind: "snap_close", N: int64(r.Intn(2))})
+	return ops
+}
+
 func genInterpose(r *Rng, cfg *Config) Interpose {
 	ip := Interpose{Site: PickOf(r, interposeSites), Nth: r.Pick([]int{6, 3, 1}) + 1}
 	n := r.Range(1, 3)
